@@ -337,7 +337,7 @@ dt_strp(const char *str, char **on, size_t len)
 	res.M = tmp;
 
 	/* seconds are optional */
-	if (sp >= ep || *sp == ':') {
+	if (sp < ep && *sp == ':') {
 		sp++;
 	}
 	if (UNLIKELY(sp + 2U > ep)) {
